@@ -90,7 +90,7 @@ for what, nm in ((0, 'arr'), (1, 'obj')):
         QM(('C09', 'C05', 'C04'), 'p%s.NC%d' % (nm, nc), 'harness/print_arr.c', defs=['-DWHAT=%d' % what, '-DNC=%d' % nc, '-DN=%d' % (24 if what == 0 else 40), '-DTS=1'],
            unwind=5, unwindset=ML(42) + ['strlen.0:12', 'vf_sprintf.3:26'], stub=['print_value'] + (['print_string_ptr'] if what else []), cost=10 + nc,
            tiers=('quick', 'thorough') if nc <= 2 else ('thorough',), functions=['print_array', 'print_object', 'print_string_ptr', 'ensure', 'update_offset'])
-for ts in (1, 2, 3, 4):
+for ts in (1, 2, 3):          # 4 bytes: no verdict within 20 min for any of the properties
     # the round trip through the real parse_string (C04) is much heavier than the print obligations: strings of 4 bytes give no verdict for C04
     for props, tmo in ((('C09', 'C05', 'C01'), 1800), (('C04',), 3000)):
         if 'C04' in props and ts == 4:
